@@ -166,7 +166,7 @@ package keeper
 //@ ensures error_changes_nothing: err != NoErr ==> raw == old(raw)
 
 //@ func (Keeper).StartRequestContext
-//@ vars (keeper.Keeper).StartRequestContext: k=github.com/irismod/service/keeper.Keeper#0 ctx=github.com/cosmos/cosmos-sdk/types.Context#0 requestContextID=github.com/tendermint/tendermint/libs/bytes.HexBytes#0 consumer=github.com/cosmos/cosmos-sdk/types.AccAddress#0 requestContext=github.com/irismod/service/types.RequestContext#0 found=bool#0 err=error#0
+//@ vars (keeper.Keeper).StartRequestContext: k=github.com/irismod/service/keeper.Keeper#0 ctx=github.com/cosmos/cosmos-sdk/types.Context#0 requestContextID=github.com/tendermint/tendermint/libs/bytes.HexBytes#0 consumer=github.com/cosmos/cosmos-sdk/types.AccAddress#0 requestContext=github.com/irismod/service/types.RequestContext#0 found=bool#0 err=error#0 needsNewBatch=bool#1 remaining=bool#2
 //@ preserves [C01,C02,C16,C11] pending_requests_stay_well_formed: actInv(raw)
 //@ props C09 C05 C10 C11 C16 C08 C04 C02 C01
 //@ preserves [C16] both_pending_indexes_list_the_same_requests: idxInv(raw)
@@ -187,6 +187,8 @@ package keeper
 //@      raw == ((!hasExp(old(raw), requestContextID) && !hasNew(old(raw), requestContextID))
 //@               ? r1[KNewQ(ctxHeight(ctx), requestContextID) := idVal(requestContextID)][KNewH(requestContextID) := hVal(ctxHeight(ctx))] : r1))
 //@ ensures error_changes_nothing: err != NoErr ==> raw == old(raw)
+//@ ensures [C10] never_queues_a_batch_beyond_the_total: err == NoErr ==> (let c := ctxOf(old(raw), requestContextID) in
+//@      (!hasExp(old(raw), requestContextID) && !hasNew(old(raw), requestContextID)) ==> (c.Repeated ? (c.RepeatedTotal < 0 || wrap_i64(c.BatchCounter) < c.RepeatedTotal) : c.BatchCounter == 0))
 
 //@ func (Keeper).KillRequestContext
 //@ vars (keeper.Keeper).KillRequestContext: k=github.com/irismod/service/keeper.Keeper#0 ctx=github.com/cosmos/cosmos-sdk/types.Context#0 requestContextID=github.com/tendermint/tendermint/libs/bytes.HexBytes#0 consumer=github.com/cosmos/cosmos-sdk/types.AccAddress#0 requestContext=github.com/irismod/service/types.RequestContext#0 found=bool#0 err=error#0
